@@ -745,8 +745,12 @@ def run_native(pid, n, scratch, tier, repo, seed):
             r["what"] = fails[0]
             r["fails"] = fails[:10]
         elif rc != 0:
-            r["status"] = "fail" if rc == 1 else "undecided"
-            r["what"] = r["reason"] = "native program exit %d: %s" % (rc, (so + se)[-600:])
+            # exit 1 = the program's own failure / sanitizer report; death by SIGABRT (failed assert), SIGSEGV, SIGBUS, SIGFPE,
+            # SIGILL inside the code under test is a failure too (the same harness runs clean on the unchanged tree);
+            # anything else (SIGKILL, time-out, setup error) stays undecided
+            crashed = rc in (-6, -11, -7, -8, -4, 134, 139, 135, 136, 132)
+            r["status"] = "fail" if (rc == 1 or crashed) else "undecided"
+            r["what"] = r["reason"] = "native program %s: %s" % ("killed by a fatal signal (abort / failed assertion / segmentation fault), rc=%d" % rc if crashed else "exit %d" % rc, (so + se)[-600:])
         elif r["cases"] == 0:
             r["status"] = "undecided"
             r["reason"] = "native program explored zero cases"
